@@ -309,6 +309,42 @@ def check_grid(case):
     return res
 
 
+def strat_grid_any_n(stratum, tier):
+    return st.fixed_dictionaries(
+        dict(
+            D=st.just(stratum["D"]),
+            N=st.integers(3, 400 if stratum["D"] == 1 else (40 if stratum["D"] == 2 else 12)),
+            idx=st.sampled_from(IDX),
+            L=st.one_of(st.sampled_from([1.0, 3.0, 10.0, 2 * math.pi, 0.1, 100.0]), gens.st_L(extreme=True)),
+            full=st.booleans(),
+            zero_centered=st.booleans(),
+        )
+    )
+
+
+def check_grid_any_n(case):
+    """left-inclusive / right-exclusive grid with exactly N points of spacing L/N for EVERY (L, N) pair"""
+    D, N, idx, L = case["D"], case["N"], case["idx"], case["L"]
+    res = R()
+    res.nontrivial = True
+    res.tag("grid_any_n", "D%d" % D, "N>40" if N > 40 else "N<=40")
+    key = "C04:%s:D%d:grid" % (idx, D)
+    ok, g = res.lib("make_grid", ex.make_grid, D, L, N, full=case["full"], zero_centered=case["zero_centered"], indexing=idx, key=key)
+    if not ok:
+        return res
+    g = np.asarray(g)
+    M_ = N + 1 if case["full"] else N
+    if not res.true("grid:shape", g.shape == (D,) + (M_,) * D, key=key, msg="%s for N=%d L=%r full=%s" % (g.shape, N, L, case["full"])):
+        return res
+    p = perm_axis(D, idx)
+    x1 = np.arange(M_) * (L / N) - (L / 2 if case["zero_centered"] else 0.0)
+    for c in range(D):
+        sh = [1] * D
+        sh[p[c]] = M_
+        res.claim("grid:values", float(np.max(np.abs(g[c] - np.broadcast_to(x1.reshape(sh), (M_,) * D)))), 1e-13 * L, key=key)
+    return res
+
+
 # --------------------------------------------------------------------------
 # generated part
 
@@ -673,6 +709,7 @@ SUBS = [
         exhaustive=True,
     ),
     Sub("grid", check_grid, strata=dn_strata, strategy=strat_grid, n=(2, 6)),
+    Sub("grid_any_n", check_grid_any_n, strata=lambda tier: [dict(id="D%d-%d" % (D, i), D=D) for i, D in enumerate((1, 1, 1, 2, 3))], strategy=strat_grid_any_n, n=(150, 1500)),
     Sub("roundtrip", check_roundtrip, strata=gen_strata, strategy=strat_roundtrip, n=(6, 25)),
     Sub(
         "planewave",
